@@ -9,8 +9,9 @@ NA_REASON = {}
 nap = os.path.join(V, "tools", "not_applicable.json")
 if os.path.exists(nap):
     NA_REASON = json.load(open(nap))
+READY = set(open(os.path.join(V, "tools", "ready.txt")).read().split())
 for pid in ids:
-    if not os.path.exists(os.path.join(V, "props", pid + ".py")) or pid in NA_REASON:
+    if not os.path.exists(os.path.join(V, "props", pid + ".py")) or pid in NA_REASON or pid not in READY:
         na.append({"property_id": pid, "reason": NA_REASON.get(pid, "not claimed: the Coq model and check for this property have not been built yet in the time available (see DESIGN.md section 5 for the planned theorem)")})
         continue
     m = importlib.import_module(pid)
